@@ -45,6 +45,18 @@ def all_ops():
     o.append(op('extend', j=1, vs=[good[1], good[3]]))      # j = form of the iterable: 0 list, 1 iterator, 2 generator, 3 tuple
     o.append(op('extend', j=2, vs=[good[4], good[0]]))
     o.append(op('extend', j=3, vs=[good[2]]))
+    for i in (-4, -1, 0, 1, 5):
+        o.append(op('del', i=i))
+    for i, v in ((0, VALS[0]), (-1, VALS[3]), (1, VALS[2]), (2, VALS[6]), (0, VALS[8]), (7, VALS[1]), (1, VALS[5])):
+        o.append(op('set', i=i, v=v))
+    for a, b in ((0, 2), (1, 99), (-2, 99), (1, 1), (2, 1)):
+        o.append(op('delslice', i=a, j=b))
+    o.append(op('setslice', i=0, j=1, vs=[good[1], good[3]]))
+    o.append(op('setslice', i=1, j=99, vs=[good[0]]))
+    o.append(op('setslice', i=1, j=1, vs=[good[4], good[2]]))
+    o.append(op('setslice', i=0, j=2, vs=[good[3], VALS[9]]))      # one bad string: rejected as a whole
+    o.append(op('iadd', vs=[good[3], good[1]]))
+    o.append(op('iadd', vs=[good[2]]))
     o.append(op('assign_self'))                              # owner.args = owner.args (store-back of the list the node already owns)
     for i in (-5, -2, -1, 0, 1, 3):
         o.append(op('pop', i=i))
@@ -116,6 +128,18 @@ class Real(object):
                 vals = [self.val(v) for v in o['vs']]
                 form = o['j']
                 a.extend(vals if form == 0 else iter(vals) if form == 1 else (x for x in vals) if form == 2 else tuple(vals)); r = ['ok']
+            elif k == 'set':
+                a[o['i']] = self.val(o['v']); r = ['ok']
+            elif k == 'del':
+                del a[o['i']]; r = ['ok']
+            elif k == 'delslice':
+                del a[o['i']:(None if o['j'] == 99 else o['j'])]; r = ['ok']
+            elif k == 'setslice':
+                a[o['i']:(None if o['j'] == 99 else o['j'])] = [self.val(v) for v in o['vs']]; r = ['ok']
+            elif k == 'iadd':
+                self.owner.args += [self.val(v) for v in o['vs']]
+                self.args = a = self.owner.args
+                r = ['ok']
             elif k == 'assign_self':
                 self.owner.args = self.owner.args
                 self.args = a = self.owner.args
@@ -214,7 +238,7 @@ def record_walks(rng, count, length, maxlen=6):
             o = rng.choice(ops)
             if o['k'] in ('append', 'insert') and len(R.args) >= maxlen:
                 continue
-            if o['k'] == 'extend' and len(R.args) + len(o['vs']) > maxlen:
+            if o['k'] in ('extend', 'iadd', 'setslice') and len(R.args) + len(o['vs']) > maxlen:
                 continue
             if o['k'] == 'extend_self' and 2 * len(R.args) > maxlen:
                 continue
